@@ -15,8 +15,10 @@
      None = unlimited: then the run need not end, hence [fuel]; result None = still
      reconnecting after fuel retries), all policies (c.(policy) : nat -> option Z is
      delay_for_attempt in ns, None = no delay), retry_on_reconnect on/off.
-     [u32_run fuel]: fewer than 2^32 - 1 retries, so the saturating u32 attempt counter of the
-     code stays below its ceiling (the model counts in nat).
+     The attempt counter: the model counts connection failures in nat; the code stores
+     min(count, u32::MAX) ([sat32]: passed to the policy and reported in MaxAttemptsExceeded)
+     and treats a count that no longer fits a u32 as exceeding every max_attempts ([exceeded],
+     repo fix 4ccf9b3).  No theorem carries a "fewer than 2^32 failures" caveat any more.
    [C16_step_refines_run] ties the layers: whatever the step machine did for a request that
    has returned is a run of [reconnect_run] on streams read off its log (calls, result and
    the values written to the published state), so theorems 1-5 speak about what run_script
@@ -24,17 +26,17 @@
    Only statements, `exact`, and Print Assumptions. *)
 From TR Require Import Lib.Base Lib.TokioTime Model.Reconnect Proof.Reconnect.
 
-(* at most max_attempts + 1 inner calls when max_attempts = Some m (and then the run ends
-   within m retries); unbounded only for None *)
+(* at most max_attempts + 1 inner calls when max_attempts = Some m, for EVERY m (u32::MAX
+   included, and with no bound on the number of failures) and the run ends within m retries;
+   unbounded only for None *)
 Theorem C16_call_bound :
   forall (Res Err : Type) (c : cfg Err) (inner : nat -> Z * outcome Res Err)
          (ready : nat -> Z * option Err) (fuel : nat) (t0 : Z),
-    u32_run fuel ->
     let r := reconnect_run c inner ready fuel t0 in
     (1 <= length (calls r) <= S fuel)%nat /\
     (forall m, max_attempts c = Some m ->
        (length (calls r) <= m + 1)%nat /\ ((m <= fuel)%nat -> result r <> None)).
-Proof. exact @call_bound_u32. Qed.
+Proof. exact @call_bound. Qed.
 Print Assumptions C16_call_bound.
 
 (* every inner call but the last failed with an error the predicate classifies as a
@@ -43,16 +45,15 @@ Print Assumptions C16_call_bound.
 Theorem C16_retries_only_reconnectable :
   forall (Res Err : Type) (c : cfg Err) (inner : nat -> Z * outcome Res Err)
          (ready : nat -> Z * option Err) (fuel : nat) (t0 : Z),
-    u32_run fuel ->
     let r := reconnect_run c inner ready fuel t0 in
     let n := length (calls r) in
     map (@c_idx Res Err) (calls r) = seq 0 n /\
     (forall cl, In cl (calls r) -> c_out cl = snd (inner (c_idx cl))) /\
     (forall k, (k < n - 1)%nat ->
        exists e d, snd (inner k) = Fail e /\ should_reconnect c e = true /\
-                   exceeded c (S k) = false /\ policy c (S k) = Some d /\
+                   exceeded c (S k) = false /\ delay_at c (S k) = Some d /\
                    retry_on_reconnect c = true /\ snd (ready (S k)) = None).
-Proof. exact @retries_only_reconnectable_u32. Qed.
+Proof. exact @retries_only_reconnectable. Qed.
 Print Assumptions C16_retries_only_reconnectable.
 
 (* call k+1 starts when the sleep that began when the failure of call k was observed is
@@ -63,31 +64,30 @@ Print Assumptions C16_retries_only_reconnectable.
 Theorem C16_delay_before_retry :
   forall (Res Err : Type) (c : cfg Err) (inner : nat -> Z * outcome Res Err)
          (ready : nat -> Z * option Err) (fuel : nat) (t0 : Z),
-    u32_run fuel ->
     let r := reconnect_run c inner ready fuel t0 in
     (exists cl rest, calls r = cl :: rest /\ c_start cl = t0) /\
     (forall cl, In cl (calls r) -> c_end cl = c_start cl + Z.max 0 (fst (inner (c_idx cl)))) /\
     (forall l1 c1 c2 l2, calls r = l1 ++ c1 :: c2 :: l2 ->
        c_idx c2 = S (c_idx c1) /\
-       exists d, policy c (c_idx c2) = Some d /\
+       exists d, delay_at c (c_idx c2) = Some d /\
          let dl := c_end c1 + Z.max 0 d in
          c_start c2 = ceil_ms dl + Z.max 0 (fst (ready (c_idx c2))) /\
          c_start c2 >= c_end c1 + d /\
          (fst (ready (c_idx c2)) <= 0 -> c_start c2 < dl + MS) /\
          (fst (ready (c_idx c2)) <= 0 -> (exists k, dl = k * MS) -> c_start c2 = dl)).
-Proof. exact @delay_before_retry_u32. Qed.
+Proof. exact @delay_before_retry. Qed.
 Print Assumptions C16_delay_before_retry.
 
 (* what the future returns, variant by variant, in terms of the last inner call cl:
    the first success unchanged; ServiceError for an error the predicate refuses (or a
    readiness error of the service before the next call); MaxAttemptsExceeded{attempts,
-   last error} exactly when the attempt number S (c_idx cl) exceeds max_attempts;
+   last error} exactly when the count S (c_idx cl) of connection failures exceeds max_attempts
+   ([exceeded], characterised by C16_exceeded_u32 below), attempts = min(count, u32::MAX);
    ConnectionFailed when the policy gives no delay; ConnectionFailedNoRetry when
    retry_on_reconnect is false (after the delay) *)
 Theorem C16_result :
   forall (Res Err : Type) (c : cfg Err) (inner : nat -> Z * outcome Res Err)
          (ready : nat -> Z * option Err) (fuel : nat) (t0 : Z) (x : Res + rerr Err),
-    u32_run fuel ->
     let r := reconnect_run c inner ready fuel t0 in
     result r = Some x ->
     exists l cl, calls r = l ++ [cl] /\ c_out cl = snd (inner (c_idx cl)) /\
@@ -98,16 +98,16 @@ Theorem C16_result :
         (exists e0 d, sleeps_after c (c_idx cl) (snd (inner (c_idx cl))) d e0 /\
                       retry_on_reconnect c = true /\ snd (ready (S (c_idx cl))) = Some e)
       | inr (MaxAttemptsExceeded n e) =>
-        snd (inner (c_idx cl)) = Fail e /\ should_reconnect c e = true /\ n = S (c_idx cl) /\
-        exists m, max_attempts c = Some m /\ (m < S (c_idx cl))%nat
+        snd (inner (c_idx cl)) = Fail e /\ should_reconnect c e = true /\
+        n = sat32 (S (c_idx cl)) /\ exceeded c (S (c_idx cl)) = true
       | inr (ConnectionFailed e) =>
         snd (inner (c_idx cl)) = Fail e /\ should_reconnect c e = true /\
-        exceeded c (S (c_idx cl)) = false /\ policy c (S (c_idx cl)) = None
+        exceeded c (S (c_idx cl)) = false /\ delay_at c (S (c_idx cl)) = None
       | inr (ConnectionFailedNoRetry e) =>
         (exists d, sleeps_after c (c_idx cl) (snd (inner (c_idx cl))) d e) /\
         retry_on_reconnect c = false
       end.
-Proof. exact @result_spec_u32. Qed.
+Proof. exact @result_spec. Qed.
 Print Assumptions C16_result.
 
 (* the values written to the published state, in order: [Disconnected; Reconnecting] for
@@ -117,7 +117,6 @@ Print Assumptions C16_result.
 Theorem C16_state :
   forall (Res Err : Type) (c : cfg Err) (inner : nat -> Z * outcome Res Err)
          (ready : nat -> Z * option Err) (fuel : nat) (t0 : Z),
-    u32_run fuel ->
     let r := reconnect_run c inner ready fuel t0 in
     let n := length (calls r) in
     exists pre fin rest,
@@ -125,8 +124,33 @@ Theorem C16_state :
       Forall (fun x => x <> Connected) pre /\
       ((fin = [Connected] /\ returns_connected (result r)) \/
        (fin = [] /\ ~ returns_connected (result r))).
-Proof. exact @state_writes_u32. Qed.
+Proof. exact @state_writes. Qed.
 Print Assumptions C16_state.
+
+(* the counter.  For a max_attempts that is a u32 — every value the builder accepts — the code's
+   test is the mathematical one, count > max, for every count (also beyond 2^32); a count that
+   no longer fits a u32 exceeds every maximum, so max_attempts(u32::MAX) is a finite bound
+   (2^32 calls), not "unlimited"; and from any state whose counter has reached u32::MAX, one
+   more connection failure ends the request at that very poll.  (Such a state takes 2^32 - 1
+   failures to reach: no check can execute it — harness/src/bin/c16_soak.rs can, in ~13 min —,
+   which is why this is a theorem about the step function from an arbitrary counter value.) *)
+Theorem C16_exceeded_u32 :
+  forall (Err : Type) (c : cfg Err) (a m : nat),
+    max_attempts c = Some m -> Z.of_nat m <= U32MAX -> exceeded c a = (m <? a)%nat.
+Proof. exact @exceeded_u32. Qed.
+Print Assumptions C16_exceeded_u32.
+
+Theorem C16_overflowing_count_exceeds_every_max :
+  forall (Res Err : Type) (c : cfg Err) (inp : rin Res Err) (f coop : nat) (t : Z)
+         (r : rst Res Err) (e : Err) (m : nat),
+    ph r = PCalling true -> fst (r_inner inp (attempt r)) = false ->
+    snd (r_inner inp (attempt r)) = Fail e -> should_reconnect c e = true ->
+    max_attempts c = Some m -> U32MAX <= Z.of_nat (attempt r) ->
+    exists r', drive c inp (S f) coop t r =
+               (r', [Disconnected], Ready (inr (MaxAttemptsExceeded (Z.to_nat U32MAX) e)), false) /\
+               ph r' = PDone /\ length (log r') = S (length (log r)).
+Proof. exact @drive_overflow. Qed.
+Print Assumptions C16_overflowing_count_exceeds_every_max.
 
 (* ---- the step machine: any number of requests, any event list ---- *)
 
